@@ -26,6 +26,7 @@ package main
 import (
 	"fmt"
 	"math"
+	"os"
 	"reflect"
 	"sort"
 	"strconv"
@@ -247,6 +248,52 @@ func c08HasPost(n *parser.ASTNode) bool {
 	})
 }
 
+// c08UnstablePost: a # comment that is NOT (attached to an identifier / number leaf and printed directly
+// behind that token at the end of a line). Only such a comment is read back onto the same token.
+func c08UnstablePost(n *parser.ASTNode, txt string) bool {
+	return c08Any(n, func(x *parser.ASTNode) bool {
+		for _, m := range x.Meta {
+			if m.Type() != parser.MetaDataPostComment {
+				continue
+			}
+			v := strings.TrimSpace(strings.ReplaceAll(m.Value(), "\n", ""))
+			leaf := len(x.Children) == 0 && x.Token != nil && (x.Name == parser.NodeIDENTIFIER || x.Name == parser.NodeNUMBER)
+			if !leaf || v == "" {
+				return true
+			}
+			atEnd, mid := false, false
+			pat := " # " + v
+			for i := 0; i+len(pat) <= len(txt); i++ {
+				if txt[i:i+len(pat)] != pat {
+					continue
+				}
+				if i+len(pat) == len(txt) || txt[i+len(pat)] == '\n' {
+					if strings.HasSuffix(txt[:i], x.Token.Val) {
+						atEnd = true
+					}
+				} else {
+					mid = true
+				}
+			}
+			if !atEnd || mid {
+				return true
+			}
+		}
+		return false
+	})
+}
+
+func c08HasPre(n *parser.ASTNode) bool {
+	return c08Any(n, func(x *parser.ASTNode) bool {
+		for _, m := range x.Meta {
+			if m.Type() == parser.MetaDataPreComment {
+				return true
+			}
+		}
+		return false
+	})
+}
+
 func c08HasComment(n *parser.ASTNode) bool {
 	return c08Any(n, func(x *parser.ASTNode) bool {
 		for _, m := range x.Meta {
@@ -272,7 +319,13 @@ func c08Inside(n *parser.ASTNode, le bool) (inside bool, ownBlank bool) {
 }
 
 // sp = the node is a statement of a block (or the root)
+// re = the node's text directly follows the keyword of a return statement (the only place where a
+// newline written for a blank line changes what the parser reads; elsewhere it only moves on the next run)
 func c08InsideSp(n *parser.ASTNode, le bool, sp bool) (inside bool, ownBlank bool) {
+	return c08InsideRe(n, le, sp, false)
+}
+
+func c08InsideRe(n *parser.ASTNode, le bool, sp bool, re bool) (inside bool, ownBlank bool) {
 	if n == nil {
 		return false, false
 	}
@@ -289,10 +342,10 @@ func c08InsideSp(n *parser.ASTNode, le bool, sp bool) (inside bool, ownBlank boo
 			pre = true
 		}
 	}
-	if (blank || pre) && !le {
+	if (pre && !le) || (blank && !le && re) {
 		inside = true
 	}
-	if blank && le && infix {
+	if blank && ((le && infix) || (!le && !re)) {
 		ownBlank = true
 	}
 	for i, c := range n.Children {
@@ -301,7 +354,8 @@ func c08InsideSp(n *parser.ASTNode, le bool, sp bool) (inside bool, ownBlank boo
 		}
 		cb, _ := c08Binding(c)
 		cle := n.Name == parser.NodeSTATEMENTS || (i == 0 && le && infix && cb == 0)
-		a, b := c08InsideSp(c, cle, n.Name == parser.NodeSTATEMENTS)
+		cre := (n.Name == parser.NodeRETURN && i == 0) || (re && i == 0 && infix)
+		a, b := c08InsideRe(c, cle, n.Name == parser.NodeSTATEMENTS, cre)
 		inside = inside || a
 		ownBlank = ownBlank || b
 	}
@@ -335,7 +389,8 @@ func c08SignStart(n *parser.ASTNode) bool {
 	})
 }
 
-// c08BlockThenStatement: a mutex or sink statement followed by another statement.
+// c08BlockThenStatement: a mutex or sink statement followed by a statement that is not already preceded
+// by a blank line (their templates end in a newline: a blank line appears, and one more on the next run).
 func c08BlockThenStatement(n *parser.ASTNode) bool {
 	return c08Any(n, func(x *parser.ASTNode) bool {
 		if x.Name != parser.NodeSTATEMENTS {
@@ -343,11 +398,110 @@ func c08BlockThenStatement(n *parser.ASTNode) bool {
 		}
 		for i, c := range x.Children {
 			if i < len(x.Children)-1 && c != nil && (c.Name == parser.NodeMUTEX || c.Name == parser.NodeSINK) {
-				return true
+				nx := x.Children[i+1]
+				for nx != nil {
+					_, ld := c08Binding(nx)
+					if ld && len(nx.Children) == 2 {
+						nx = nx.Children[0]
+					} else {
+						break
+					}
+				}
+				if nx == nil || nx.Token == nil || nx.Token.PrefixNewlines <= 1 {
+					return true
+				}
 			}
 		}
 		return false
 	})
+}
+
+// c08Sig: feature signature used to study the classes (debug, C08_SIG=1)
+func c08Sig(ast *parser.ASTNode, txt string) string {
+	var f []string
+	add := func(b bool, s string) {
+		if b {
+			f = append(f, s)
+		}
+	}
+	var inC, inB, inR, ob, p1, pn, pl, qmid, qend bool
+	var walk func(n *parser.ASTNode, le, sp bool)
+	walk = func(n *parser.ASTNode, le, sp bool) {
+		if n == nil {
+			return
+		}
+		_, ld := c08Binding(n)
+		infix := ld && len(n.Children) == 2
+		blank := n.Token != nil && n.Token.PrefixNewlines > 1
+		npre := 0
+		for _, m := range n.Meta {
+			if m.Type() == parser.MetaDataPreComment {
+				npre++
+			}
+			if m.Type() == parser.MetaDataPostComment {
+				v := strings.TrimSpace(strings.ReplaceAll(m.Value(), "\n", ""))
+				mid := false
+				for rest := txt; ; {
+					i := strings.Index(rest, " # "+v)
+					if i < 0 {
+						break
+					}
+					rest = rest[i+3+len(v):]
+					if rest != "" && rest[0] != '\n' {
+						mid = true
+					}
+				}
+				if mid {
+					qmid = true
+				} else {
+					qend = true
+				}
+			}
+		}
+		if npre > 0 && !le {
+			inC = true
+		}
+		if npre == 1 && le {
+			p1 = true
+			if n.Token != nil && n.Token.Lline > 1 {
+				pl = true
+			}
+		}
+		if npre > 1 {
+			pn = true
+		}
+		if blank && !le {
+			inB = true
+		}
+		if blank && le && infix {
+			ob = true
+		}
+		if n.Name == parser.NodeRETURN && len(n.Children) == 0 && !sp {
+			inR = true
+		}
+		for i, c := range n.Children {
+			if c == nil {
+				continue
+			}
+			cb, _ := c08Binding(c)
+			walk(c, n.Name == parser.NodeSTATEMENTS || (i == 0 && le && infix && cb == 0), n.Name == parser.NodeSTATEMENTS)
+		}
+	}
+	walk(ast, true, true)
+	add(inC, "INc")
+	add(inB, "INb")
+	add(inR, "INr")
+	add(ob, "OB")
+	add(p1, "P1")
+	add(pl, "PL")
+	add(pn, "Pn")
+	add(qmid, "Qmid")
+	add(qend, "Qend")
+	add(c08BlockThenStatement(ast), "BT")
+	add(c08Any(ast, func(x *parser.ASTNode) bool {
+		return x.Token != nil && x.Token.ID == parser.TokenSTRING && !x.Token.AllowEscapes
+	}), "RAW")
+	return strings.Join(f, "+")
 }
 
 func c08Run(payload string) string {
@@ -363,8 +517,9 @@ func c08Run(payload string) string {
 		return "PPERR " + oneLine(err.Error())
 	}
 	inside, ownBlank := c08Inside(ast, true)
-	rtWild := c08HasPost(ast) || inside
-	idemWild := rtWild || ownBlank || c08HasComment(ast) || c08BlockThenStatement(ast)
+	rtWild := c08UnstablePost(ast, txt) || inside
+	idemWild := rtWild || ownBlank || c08HasPre(ast) || c08BlockThenStatement(ast)
+	sig := c08Sig(ast, txt)
 	rt, idem := "ok", "na"
 	ast2, err := parser.Parse("t", txt)
 	if err != nil || ast2 == nil {
@@ -378,6 +533,12 @@ func c08Run(payload string) string {
 			idem = "ok"
 		} else {
 			idem = "diff"
+		}
+	}
+	if os.Getenv("C08_SIG") != "" && sig != "" {
+		CountRun("sig." + sig + " rt-" + rt + " idem-" + idem)
+		if os.Getenv("C08_SIG") == sig {
+			fmt.Fprintf(os.Stderr, "SIG %s rt-%s idem-%s %q => %q\n", sig, rt, idem, src, txt)
 		}
 	}
 	if rtWild {
